@@ -22,7 +22,7 @@ type effects struct {
 	allocates bool
 	cells     map[*ssa.Alloc]bool
 	hardAll   bool       // all was set by something other than a contract with an unstated frame
-	unknown   [][]string // the keeps lists of the called contracts with unstated frames
+	unknown   []*Contract // the called contracts with unstated frames (their keeps lists survive)
 }
 
 func (g *gen) staticHeapName(addr ssa.Value) (string, *ssa.Alloc) {
@@ -332,8 +332,8 @@ func (g *gen) enterLoop(li *loopInfo, b *ssa.BasicBlock, st *state, phis []*ssa.
 		g.newEpoch(st, func(name, r string) string {
 			if !ef.hardAll && !ef.strong[name] && !ef.allNonDoc {
 				kept := len(ef.unknown) > 0
-				for _, ks := range ef.unknown {
-					if !keepsHeap(ks, name) {
+				for _, uc := range ef.unknown {
+					if !keepsHeap(uc, name) {
 						kept = false
 					}
 				}
@@ -718,8 +718,8 @@ func addrRoot(v ssa.Value) ssa.Value {
 }
 
 // keepsHeap: does a contract's keeps list cover heap variable name? ("nonnil:" clauses keep nothing.)
-func keepsHeap(keys []string, name string) bool {
-	for _, k := range keys {
+func keepsHeap(con *Contract, name string) bool {
+	for _, k := range con.Keeps {
 		switch {
 		case strings.HasPrefix(k, "nonnil:"):
 		case k == "list.*":
@@ -727,7 +727,7 @@ func keepsHeap(keys []string, name string) bool {
 				return true
 			}
 		case strings.HasPrefix(k, "var."):
-			if name == "G.yqlib."+strings.TrimPrefix(k, "var.") {
+			if name == globalHeapOf(con, strings.TrimPrefix(k, "var.")) {
 				return true
 			}
 		case strings.HasSuffix(k, ".*"):
